@@ -234,6 +234,8 @@ func pktKindKey(m *rec.Rec) string {
 type pktCodec struct {
 	enc func() ([]byte, int, error)                               // the built value's encoding and Len()
 	dec func([]byte) (*rec.Rec, util.Message, []byte, int, error) // decode into a fresh value: extracted tree, value, re-encoding, Len()
+	// decode first into a value that already holds another header of the same kind (nil: not offered for this kind)
+	decUsed func(first, b []byte) (*rec.Rec, util.Message, []byte, int, error)
 }
 
 func codecFor(m *rec.Rec) (*pktCodec, error) {
@@ -305,6 +307,26 @@ func codecFor(m *rec.Rec) (*pktCodec, error) {
 			if err := v2.UnmarshalBinary(b); err != nil {
 				return nil, nil, nil, 0, err
 			}
+			scribble(b) // the caller's buffer is reused (a pooled receive buffer): the decoded header must not change
+			x, err := lib.ExtractPacket(v2)
+			if err != nil {
+				return nil, nil, nil, 0, err
+			}
+			e, err := v2.MarshalBinary()
+			return x, v2, e, int(v2.Len()), err
+		},
+		decUsed: func(first, b []byte) (*rec.Rec, util.Message, []byte, int, error) {
+			v2 := lib.NewPacketValue(m.K)
+			if v2 == nil {
+				return nil, nil, nil, 0, fmt.Errorf("no decoder value for %s", m.K)
+			}
+			if err := v2.UnmarshalBinary(first); err != nil {
+				return nil, nil, nil, 0, errSkip
+			}
+			if err := v2.UnmarshalBinary(b); err != nil {
+				return nil, nil, nil, 0, err
+			}
+			scribble(b) // the caller's buffer is reused (a pooled receive buffer): the decoded header must not change
 			x, err := lib.ExtractPacket(v2)
 			if err != nil {
 				return nil, nil, nil, 0, err
@@ -312,6 +334,14 @@ func codecFor(m *rec.Rec) (*pktCodec, error) {
 			e, err := v2.MarshalBinary()
 			return x, v2, e, int(v2.Len()), err
 		}}, nil
+}
+
+var errSkip = fmt.Errorf("skip")
+
+func scribble(b []byte) {
+	for i := range b {
+		b[i] = ^b[i]
+	}
 }
 
 func chainOf(m *rec.Rec) string {
@@ -373,14 +403,23 @@ func c09Check(c *fw.Ctx, m *rec.Rec, packed string) bool {
 		fail("size", "Len", fmt.Sprintf("Len() = %d, encoding has %d bytes", l0, len(enc)))
 	}
 	// 2. wire first: decode the reference bytes, compare fields and payload kinds with the recipe
-	decodeAndCompare := func(what string, in []byte, expectBytes []byte) {
+	decodeAndCompare := func(what string, in []byte, expectBytes []byte, first ...[]byte) {
 		var x *rec.Rec
 		var v util.Message
 		var re []byte
 		var l2 int
 		var derr error
 		input := append([]byte(nil), in...)
-		vd := fw.Guard(len(input), func() { x, v, re, l2, derr = codec.dec(input) })
+		vd := fw.Guard(len(input), func() {
+			if len(first) > 0 {
+				x, v, re, l2, derr = codec.decUsed(append([]byte(nil), first[0]...), input)
+			} else {
+				x, v, re, l2, derr = codec.dec(input)
+			}
+		})
+		if derr == errSkip {
+			return
+		}
 		switch vd.Class {
 		case "panic":
 			fail("panic", what+":"+fw.LibFrame(vd.Stack), vd.Panic+"\n"+fw.TrimStack(vd.Stack))
@@ -412,6 +451,15 @@ func c09Check(c *fw.Ctx, m *rec.Rec, packed string) bool {
 		}
 	}
 	decodeAndCompare("wire", wire, wire)
+	// 2b. the same bytes decoded into a value that was used before (a receive loop that keeps one header value):
+	// nothing of the earlier header may show in the result
+	if codec.decUsed != nil && ok && c.Index%2 == 0 {
+		other := gen.PacketOfKind(prng.Derive(c.Seed, 909, uint64(c.Index)), m.K, gen.FrameOpt{MaxData: 300})
+		if ow, oerr := spec.EncodePacket(other); oerr == nil {
+			c.Count("decodes_into_used_values", 1)
+			decodeAndCompare("used-value", wire, wire, ow)
+		}
+	}
 	// 3. library round trip on its own bytes (independent of clause 1)
 	if !bytes.Equal(enc, wire) {
 		decodeAndCompare("roundtrip", enc, enc)
